@@ -74,7 +74,7 @@ class StageSpec(Spec):
 
     def actions(self, env):
         acts = [("setup", r) for r in self.reqs]
-        acts += [("in0", 1), ("in0", 0), ("out0z",), ("out0d",), ("setuptok",), ("setupbad", self.reqs[0]), ("in1", 1), ("in1", 0), ("out1",), ("out1x8",)]
+        acts += [("in0", 1), ("in0", 0), ("out0z",), ("out0d",), ("setuptok",), ("setupbad", self.reqs[0]), ("in1", 1), ("in1", 0), ("out1",), ("out1x8",), ("setup1", self.reqs[0])]
         return acts
 
     def goals(self):
@@ -212,6 +212,17 @@ class StageSpec(Spec):
                 if in_transfer: self.cover["status-out-acked"] += 1
             if k and k[0] == "data": raise Violation("data-sent-in-response-to-out", dict(got=k))
             if stage and dirin and wlen: new = (dirin, wlen, 2)
+        elif kind == "setup1":
+            # a SETUP transaction addressed to endpoint 1 (not a control endpoint of this device): it must not be answered
+            # and must not start, restart or disturb a control transfer on endpoint 0
+            before = self._probe0(cur)
+            self.host.send(cur, U.token(U.SETUP, 0, 1), False)
+            resp = self.host.send(cur, U.data_packet(U.DATA0, U.setup_bytes(*REQS[a[1]])), True)
+            if resp is not None and U.classify_device_packet(resp) == ("hs", U.ACK):
+                raise Violation("setup-for-other-endpoint-acked", dict(resp=resp, env=env))
+            after = self._probe0(cur)
+            if before != after and "collision" not in (before, after):
+                raise Violation("other-endpoint-traffic-changed-ep0-behaviour:setup1", dict(env=env, before=before, after=after))
         elif kind in ("in1", "out1", "out1x8"):
             before = self._probe0(cur)
             if kind == "in1":
